@@ -127,7 +127,12 @@ impl<'a> Remote<'a> {
                     .with(|waker| cx.waker().will_wake(unsafe { (&*waker).assume_init_ref() }))
             {
                 // Waker is already up-to-date, leave it in place.
-                self.header().state.finish_setting_waker::<true>();
+                state = self.header().state.finish_setting_waker::<true>();
+                if state.has_result() || state.is_cancelled() {
+                    // Finished while we were in the critical section: the executor saw
+                    // SETTING_WAKER and did not wake us, so look again instead of parking.
+                    continue;
+                }
                 break Poll::Pending;
             }
 
@@ -146,7 +151,13 @@ impl<'a> Remote<'a> {
                 waker.write(cx.waker().clone());
             });
 
-            self.header().state.finish_setting_waker::<true>();
+            state = self.header().state.finish_setting_waker::<true>();
+            if state.has_result() || state.is_cancelled() {
+                // The task completed (or was dropped) while we were storing the waker: the
+                // executor skipped the wake-up because SETTING_WAKER was set. Nobody will
+                // wake us any more, so look at the state again instead of returning Pending.
+                continue;
+            }
 
             break Poll::Pending;
         }
